@@ -147,6 +147,7 @@ def gen(rng, idx, tier, seed):
                                       7200000]))
     return {'mode': ['tflag', 'synth'][m - 3], 'file': fs,
             'drop_tflag': bool(rng.random() < 0.3),
+            'disk': bool(rng.random() < 0.3),
             'bounds': bool(rng.random() < 0.5)}
 
 
@@ -300,10 +301,22 @@ def run_cf_in(spec, res, d, h):
 
 
 def run_ioapi(spec, res):
+    with harness.casedir() as d, harness.handles() as h:
+        run_ioapi_in(spec, res, d, h)
+
+
+def run_ioapi_in(spec, res, d, h):
     import cftime
     from PseudoNetCDF.conventions.ioapi._ioapi import add_time_variables
     fs = spec['file']
     f = gen_ioapi.build(fs)
+    if spec.get('disk') and spec['mode'] == 'tflag' and \
+            not spec['drop_tflag']:
+        # the IOAPI file saved and opened again from disk
+        g = harness.to_disk(f, d, h, fmt='ioapi')
+        if g is not None:
+            f = g
+            res.facet('ioapi-source:disk')
     exp = gen_ioapi.expected_times(fs)
     res.hook('oracle.integer-calendar')
     dtsec = gen_ioapi.tstep_seconds(fs['tstep'])
